@@ -4,7 +4,7 @@
    is enabled -- the harness waits for exactly that quiescence), and the monitors of model/IngestSpec.v are run
    over the OBSERVED events. *)
 From Coq Require Import List NArith ZArith Bool.
-From Qryn Require Import model.Ingest model.PushHandler model.IngestSpec model.IngestSched model.IngestFresh.
+From Qryn Require Import model.Ingest model.PushHandler model.PushConfirm model.IngestSpec model.IngestSched model.IngestFresh.
 Import ListNotations.
 
 (* ---------------------------------------------------------------- compact literals *)
@@ -426,8 +426,46 @@ Record case2 := {
   d_handlers : nat;                  (* number of HTTP pushes of the script *)
   d_ops : list op2;
   d_obs : list (list event);         (* observed: EDial / ESwap / ESend (table of the recognised rows) / EDone / EAnswer *)
-  d_own : list (N * N * okey)        (* runs of row ids and the sub-request (push, position) that submitted them *)
+  d_own : list (N * N * okey);       (* runs of row ids and the sub-request (push, position) that submitted them *)
+  d_conf : list (list (nat * list N)) (* per operation: the series rows ConfirmSeries entered into the announcement cache (seen by a wrapper
+                                         around controller.FPCache), per push, sorted *)
 }.
+
+(* ConfirmSeries (model/PushConfirm.v): in the wrapped system the confirmation loop of push h runs directly before its
+   success answer, with the keys of its series requests; so the confirmations of an operation are those of its success
+   answers.  They must be the observed ones (as a multiset of (push, sorted rows)). *)
+Definition model_confs (es : list event) : list (nat * list N) :=
+  map (fun hk => (fst hk, sortN (snd hk))) (flat_map confirms_of_event es).
+Definition conf_eqb (a b : nat * list N) : bool := Nat.eqb (fst a) (fst b) && listN_eqb (snd a) (snd b).
+Fixpoint remove_conf (x : nat * list N) (l : list (nat * list N)) : option (list (nat * list N)) :=
+  match l with
+  | [] => None
+  | y :: t => if conf_eqb x y then Some t else match remove_conf x t with Some t' => Some (y :: t') | None => None end
+  end.
+Fixpoint conf_perm (a b : list (nat * list N)) : bool :=
+  match a with
+  | [] => is_nil b
+  | x :: a' => match remove_conf x b with Some b' => conf_perm a' b' | None => false end
+  end.
+Fixpoint confs_eqb (model : list (list event)) (obs : list (list (nat * list N))) : bool :=
+  match model, obs with
+  | [], [] => true
+  | x :: a', y :: b' => conf_perm (filter (fun hk => negb (is_nil (snd hk))) (model_confs x)) y && confs_eqb a' b'
+  | _, _ => false
+  end.
+(* the oracle on the OBSERVED confirmations (series_confirmed_only_after_all_inserts): every row confirmed during an
+   operation is in the key column of a block whose Do had returned without error by the end of that operation *)
+Fixpoint confs_sound (m : amon) (obs : list (list event)) (confs : list (list (nat * list N))) : bool :=
+  match obs, confs with
+  | es :: obs', cf :: confs' =>
+      match run_mon (amon_step false) m es with
+      | None => true                        (* reported by the acknowledgement monitor itself *)
+      | Some m' =>
+          forallb (fun hk => forallb (fun k => existsb (fun b => existsb (fun c => N.eqb (fst c) k) (nth 1 b [])) (a_acked m')) (snd hk)) cf
+          && confs_sound m' obs' confs'
+      end
+  | _, _ => true
+  end.
 
 Definition op2_wf (o : op2) : bool :=
   match o with O2Http items => forallb item_wf items | _ => true end.
@@ -438,7 +476,7 @@ Definition op2_wf (o : op2) : bool :=
 Definition model_mismatch2 (c : case2) : bool :=
   match run_ops2 (ginit (d_cfg c) (d_attempts c)) (d_dials c) (d_ops c) with
   | None => true
-  | Some l => negb (obs2_eqb l (d_obs c)) ||
+  | Some l => negb (obs2_eqb l (d_obs c)) || negb (confs_eqb l (d_conf c)) ||
               (d_drained c && match final2 (ginit (d_cfg c) (d_attempts c)) (d_dials c) (d_ops c) with
                               | Some g => negb (all_done g)
                               | None => true
@@ -454,7 +492,7 @@ Definition c01_violation2 (c : case2) : bool :=
   let es := concat (d_obs c) in
   let n := length (d_cfg c) in
   negb (is_some (run_mon (amon_step (forallb op2_wf (d_ops c))) (amon_init n) es) &&
-        one_answer_b es &&
+        one_answer_b es && confs_sound (amon_init n) (d_obs c) (d_conf c) &&
         (if d_drained c then forallb (fun h => existsb (Nat.eqb h) (answered es)) (seq 0 (d_handlers c)) else true)).
 
 (* C02 on the observed blocks: tables of distinct rows (the harness reports a block whose columns differ in
